@@ -260,6 +260,9 @@ def gen_run_scenario(rng, feats, cycles=None):
     endname = g.nnames + 1
     cycles = cycles or r.choice([1, 1, 2])
     end0 = r.choice([4, 40, 100, 200]) if 'timers' in f else r.choice([2, 6])
+    if any(t['persist'] and t['interval'] <= 1 for t in timers):
+        # a persistent timer that is due in every iteration: keep the run (and the model's event table) small
+        end0 = min(end0, 40)
     nuser = len(timers)
     for k in range(cycles):
         # one end timer per run() cycle (a one-shot timer unregisters itself after firing)
